@@ -455,7 +455,12 @@ func BatchFunc[T any](
 				out.err = err
 				return
 			}
-			c <- item
+			select {
+			case c <- item:
+			case <-bgCtx.Done():
+				// Close() was called; the batcher may already be gone.
+				return
+			}
 		}
 	}()
 
